@@ -85,13 +85,13 @@ class C10(Prop):
         "exp_outside_support", "sample_is_inverse_of_deviate",
         "gumbel_cdf_monotone_0_to_1", "gumbel_textbook_laws", "gumbel_code_eq_textbook", "gumbel_code_surv_switches",
         "gumbel_code_invsurv", "wei_textbook_laws", "wei_code_eq_textbook", "wei_outside_support",
-        "gev_textbook_laws", "gev_code_eq_textbook", "gev_code_logsurv", "gev_gumbel_branch_partial", "gev_outside_support",
+        "gev_textbook_laws", "gev_code_eq_textbook", "gev_code_logsurv", "gev_gumbel_branch_is_gumbel_code", "gev_outside_support",
         "gam_laws_partial", "sxp_laws_partial", "normal_laws", "hxp_mixture_laws", "mixgev_mixture_laws", "vec_extremes", "gam_sxp_outside_support", "pdf_integrates_to_cdf_differences",
         "gev_gumbel_branch_distance", "bisection_inverses_generated", "bisection_inverses_bracket", "bisection_inverses_accuracy",
         "bisection_inverses_terminate", "bisection_inverses_real_reading_hangs_above_sup", "bisection_bracket_returns_at_infinity", "mixture_log_versions_partial", "incomplete_gamma_structure", "generic_api_forwards", "lognormal_laws", "gam_sxp_closed_forms",
         "gam_sxp_textbook_laws", "gam_sxp_code_vs_textbook", "gam_sxp_code_close", "mixture_full_laws",
         "mixture_sample_is_component_inverse", "transformed_samples", "sampler_primitive_arguments",
-        "gam_sxp_inverse_laws", "mixgev_log_versions")]
+        "gam_sxp_inverse_laws", "mixgev_log_versions", "hxp_inverse_laws", "mixgev_code_close_everywhere")]
     claimed = True
     technique = ("Lean 4 proof about the C functions translated from the working tree on every run (clang-14 AST -> Lean, polymorphic "
                  "over a numeric class): real-analysis theorems at the R instance, the same definitions executed at Float bit-for-bit "
@@ -445,6 +445,8 @@ class C10(Prop):
         if True:
             for p in (0.5, rng.random(), rng.choice([1e-6, 1e-3, 0.01, 0.1, 0.9, 0.99, 0.9999])):
                 ops.append("mix fam=%s fn=invcdf x=%s %s" % (fam, dhex(p), args))
+            if fam == "mixgev":     # p = 1: at or above the largest value the cdf attains (coefficients sum to 1 only to rounding)
+                ops.append("mix fam=%s fn=invcdf x=%s %s" % (fam, dhex(1.0), args))
             if fam == "hxp":        # the ends of the p range: p = 0 converges onto mu by the no-progress break, p = 1 brackets out to +inf
                 qsum = 0.0
                 for v in mp_["q"]:
@@ -560,6 +562,10 @@ class C10(Prop):
         out.append({"name": "bracketlim-binary64", "ops": ["bracketlim mu=%s q=%s" % (dhex(m), dhex(q)) for m in sorted(set(MU_GRID)) + [2.0 ** 52, -2.0 ** 52, 1e-300, -1e-300]
                                                            for q in (0.5, 1 - 2.0 ** -53)] +
                     ["bracketlim mu=%s q=%s" % (dhex(rng.choice([-1, 1]) * self.logu(rng, 1e-6, 1e6)), dhex(rng.uniform(0.01, 0.99))) for _ in range(8)]})
+        out.append({"name": "fixed-mixgev-invcdf-p-above-cdf-max",
+                    "ops": [_mixop("mixgev", "invcdf", 1.0, q=[0.3, 0.7 - 1e-16], mu=[0.0, 1.0], l=[1.0, 2.0], al=[0.1, 0.2]),
+                            _mixop("mixgev", "invcdf", 1.0, q=[0.3, 0.7 - 1e-16], mu=[0.0, 1.0], l=[1.0, 2.0], al=[-0.1, 0.2]),
+                            _mixop("mixgev", "invcdf", 1.0, q=[0.5, 0.25], mu=[0.0, -3.0], l=[1.0, 0.5], al=[-0.5, -0.1])]})
         out.append({"name": "fixed-gev-log1p", "ops": [op_f("esl_gev_" + w, [x, 0.0, 1.0, al]) for al in (1e-12, -1e-12, 1.5e-12, 1e-10)
                                                        for x in (-1.0, 1.0, -10.0, nextafter(-10.0, 1)) for w in ("cdf", "logcdf", "surv", "pdf")] +
                     [op_f("esl_gev_invcdf", [p, 0.0, 1.0, al]) for al in (2e-12, -2e-12, 1e-10) for p in (0.5, 0.01, 0.99)]})
@@ -716,6 +722,13 @@ class C10(Prop):
                     comps = [(q[k], "gev", [mus[k], lam[k], als[k]]) for k in range(len(q))]
                     par = ("mixgev", kv["q"], kv["mu"], kv["l"], kv["al"])
                 x = unhex(kv["x"])
+                if which == "invcdf" and fam == "mixgev" and x == 1.0:
+                    # p = 1 (at or above the largest cdf value): since 55bbf88 the right bracket stops at +inf at the latest
+                    xr = res[0]
+                    if not (xr == math.inf or (xr == xr and R.mix_reference(xr, comps)["cdf"][0] >= 1 - 1e-14)):
+                        return Failure("monitor", "esl_mixgev_invcdf(1) = %r, where the cdf is still %s; %s" % (
+                            xr, R.mpmath.nstr(R.mix_reference(xr, comps)["cdf"][0], 17) if xr == xr else "undefined", op))
+                    continue
                 if which == "invcdf" and fam == "hxp" and x in (0.0, 1.0):
                     xr = res[0]
                     if x == 0.0 and not (mu0 <= xr <= nextafter(mu0, 4) or (mu0 == 0.0 and 0.0 <= xr <= 1e-300)):
